@@ -78,6 +78,10 @@ type Options struct {
 	// BWS accepts SP / HTAB around ';' and '=' in chunk extensions (RFC 7230
 	// erratum 4667, RFC 9112 section 7.1.1).
 	BWS bool
+	// TrailingWS ignores SP / HTAB between the chunk-size and the CRLF of the
+	// size line when no chunk-ext follows ("5 \r\n" is read as "5\r\n"; no RFC
+	// sanction; the reading is "the whitespace is padding").
+	TrailingWS bool
 	// Trailer tolerances for the trailer-part field lines.
 	Trailer httpfield.Tolerate
 }
@@ -159,10 +163,13 @@ func DecodeOpts(b []byte, o Options) (res Result, err *Error) {
 			if q >= len(b) {
 				return res, &Error{Truncated, len(b), "input ends after chunk-size"}
 			}
-			if b[q] != ';' {
+			switch {
+			case b[q] != ';' && o.TrailingWS && (b[q] == '\r' || b[q] == '\n'):
+				// tolerated padding: the line end is judged below
+				extStart = q
+			case b[q] != ';':
 				return res, &Error{SizeTrailingWS, pos, "whitespace after chunk-size"}
-			}
-			if !o.BWS {
+			case !o.BWS:
 				return res, &Error{ExtBWS, pos, "whitespace before ';' of chunk-ext"}
 			}
 			pos = q
